@@ -368,7 +368,7 @@ func c01Configs(thorough bool) []c01Config {
 		c := c01Config{Name: name, Byz: byz, R: R, Crashes: crashes, Mode: mode, Dev: dev, Reorder: reorder, MaxDepth: depth,
 			MaxStates: 4_000_000, BudgetS: 70, DiffEvery: 4}
 		if thorough {
-			c.MaxStates, c.BudgetS, c.DiffEvery = 12_000_000, 800, 1
+			c.MaxStates, c.BudgetS, c.DiffEvery = 12_000_000, 200, 2
 		}
 		cs = append(cs, c)
 	}
@@ -522,6 +522,10 @@ func TestVerifC01(t *testing.T) {
 	results := make([]*c01Result, len(cfgs))
 	ev.Par(len(cfgs), 16, func(i int) {
 		cfg := cfgs[i]
+		if r.Expired() {
+			r.Cap("configuration " + cfg.Name + " not started: wall-clock budget of the check used up")
+			return
+		}
 		if os.Getenv("VERIF_BUDGET_S") != "" {
 			fmt.Sscan(os.Getenv("VERIF_BUDGET_S"), &cfg.BudgetS)
 		}
